@@ -84,7 +84,7 @@ class AGen:
         if depth <= 0 or r.random() < 0.25:
             t = self.special_leaf(cplx)
             return dict(x="leaf", tree=t, decl=self.decl_for(T.dense(t))), t
-        o = r.choice(["sum", "prod", "prod", "gram", "gram", "kron", "bdiag", "transp", "adj", "sliced", "scalprod"])
+        o = r.choice(["sum", "prod", "prod", "gram", "gram", "gram3", "kron", "bdiag", "transp", "adj", "sliced", "sliced", "scalprod"])
         d = depth - 1
         if o == "sum":
             a, ta = self.node(d, cplx)
@@ -110,6 +110,29 @@ class AGen:
             c = r.choice([[-1, 0], [2, 0], [1, 0], [-2, 0]] + ([[0, 1], [1, 1]] if dt in T.CPLX else []))
             s = dict(k="Scal", dt=dt, c=c, n=T.shape(ta)[0])
             an, t = dict(x="prod", ms=[dict(x="leaf", tree=s, decl=[]), a]), dict(k="Prod", ms=[s, ta])
+        elif o == "gram3":
+            # Product(W(a), a, b, ...) / Product(b, W(a), a): three or more factors sharing the SAME object a
+            a, ta = self.node(d, cplx)
+            adj = r.random() < 0.5
+            w = dict(k="Adj" if adj else "Transp", a=ta)
+            k_ = T.shape(ta)[1]
+            for _ in range(10):
+                b, tb = self.node(d, cplx)
+                if T.shape(tb)[0] == k_:
+                    break
+            else:
+                return a, ta
+            wn = dict(x="adj" if adj else "transp", a=a, decl=[])
+            if r.random() < 0.7:
+                an, t = dict(x="prod", ms=[wn, a, b], share=(0, 1)), dict(k="Prod", ms=[w, ta, tb])
+            else:
+                for _ in range(10):
+                    c, tc = self.node(d, cplx)
+                    if T.shape(tc)[1] == k_:
+                        break
+                else:
+                    return a, ta
+                an, t = dict(x="prod", ms=[c, wn, a], share=(1, 2)), dict(k="Prod", ms=[tc, w, ta])
         elif o == "gram":
             a, ta = self.node(d, cplx)
             adj, left = r.random() < 0.5, r.random() < 0.5
@@ -136,6 +159,15 @@ class AGen:
                 k = r.randint(1, m)
                 st = r.randint(0, m - k)
                 rs = cs = list(range(st, st + k))
+                u_ = r.random()
+                if u_ < 0.25 and k > 1:      # same index set, one axis reversed: NOT the same slice
+                    cs = list(reversed(rs))
+                    if T.range_slice(cs) is None:
+                        cs = rs
+                elif u_ < 0.4 and k > 1:     # both axes reversed: equal slices again
+                    rs = cs = list(reversed(rs))
+                    if T.range_slice(rs) is None:
+                        rs = cs = list(range(st, st + k))
             else:
                 rs = list(range(0, r.randint(1, m)))
                 cs = list(range(r.randint(0, n - 1), n))
@@ -153,6 +185,15 @@ def build(an):
         A = T.build(an["tree"])
     elif x == "sum":
         A = ops.Sum(*[build(c) for c in an["ms"]])
+    elif x == "prod" and an.get("share"):
+        i_, j_ = an["share"]                       # ms[i_] wraps the very object ms[j_]
+        objs = [None] * len(an["ms"])
+        objs[j_] = build(an["ms"][j_])
+        objs[i_] = ops.Adjoint(objs[j_]) if an["ms"][i_]["x"] == "adj" else ops.Transpose(objs[j_])
+        for q, c in enumerate(an["ms"]):
+            if objs[q] is None:
+                objs[q] = build(c)
+        A = ops.Product(*objs)
     elif x == "prod":
         A = ops.Product(*[build(c) for c in an["ms"]])
     elif x == "gram":
